@@ -18,6 +18,7 @@
 //	    | (strsz LO HI)             String[LO,HI]  (scStringType; `str` is the unconstrained stringType)
 //	    | (strval xHEX)             vcStringType (the type of a string literal; may be the empty string)
 //	    | (enum CI xHEX*)           CI ::= t|f ; values exactly as Strings() returns them (lower-cased when CI)
+//	    | (strraw LO HI)            the type NewStringType makes of the bounds AS GIVEN (LO may be negative); the model clamps LO to 0 (mkStrRaw)
 //	    | (enumraw CI xHEX*)        the type NewEnumType makes of the values AS GIVEN (any spelling); the model lower-cases them when CI
 //	    | (pat xHEX*)               Pattern; each argument is a regexp source
 //	    | (rx xHEX)                 Regexp type; `(rx x)` (empty source) is the default Regexp type
